@@ -776,6 +776,8 @@ impl<B: AsRef<[AtomicUsize]>> AtomicBitVec<B> {
     unsafe fn get_unchecked(&self, index: usize, ordering: Ordering) -> bool {
         let word_index = index / BITS;
         let bits = self.bits.as_ref();
+        #[cfg(sux_verif)]
+        let bits = crate::verif_hooks::HookedSlice::new(bits);
         let word = bits.get_unchecked(word_index).load(ordering);
         (word >> (index % BITS)) & 1 != 0
     }
@@ -784,6 +786,8 @@ impl<B: AsRef<[AtomicUsize]>> AtomicBitVec<B> {
         let word_index = index / BITS;
         let bit_index = index % BITS;
         let bits = self.bits.as_ref();
+        #[cfg(sux_verif)]
+        let bits = crate::verif_hooks::HookedSlice::new(bits);
 
         // For constant values, this should be inlined with no test.
         if value {
@@ -800,6 +804,8 @@ impl<B: AsRef<[AtomicUsize]>> AtomicBitVec<B> {
         let word_index = index / BITS;
         let bit_index = index % BITS;
         let bits = self.bits.as_ref();
+        #[cfg(sux_verif)]
+        let bits = crate::verif_hooks::HookedSlice::new(bits);
 
         let old_word = if value {
             bits.get_unchecked(word_index)
